@@ -476,6 +476,11 @@ def expand_aliases(func, node, limit: int = 6):
     return out
 
 
+def _is_none_key(left):
+    """Atom text of ``<left> is None`` (parenthesised where the operand needs it)."""
+    return U(ast.Compare(left=left, ops=[ast.Is()], comparators=[ast.Constant(None)]))
+
+
 def bool_eval(test, atoms):
     """Truth value of a condition given truth values for its atoms.  Atoms are keyed by text; ``X is None`` and
     ``X is not None`` share the atom ``"X is None"``.  Returns None when an atom is missing."""
@@ -489,7 +494,7 @@ def bool_eval(test, atoms):
         return None if v is None else (not v)
     if isinstance(test, ast.Compare) and len(test.ops) == 1 and isinstance(test.comparators[0], ast.Constant) and test.comparators[0].value is None \
             and isinstance(test.ops[0], (ast.Is, ast.IsNot)):
-        k = f"{U(test.left)} is None"
+        k = _is_none_key(test.left)
         if k not in atoms:
             return None
         return atoms[k] if isinstance(test.ops[0], ast.Is) else (not atoms[k])
@@ -535,7 +540,7 @@ def bool_atoms(test):
         out |= bool_atoms(test.operand)
     elif isinstance(test, ast.Compare) and len(test.ops) == 1 and isinstance(test.comparators[0], ast.Constant) and test.comparators[0].value is None \
             and isinstance(test.ops[0], (ast.Is, ast.IsNot)):
-        out.add(f"{U(test.left)} is None")
+        out.add(_is_none_key(test.left))
     elif isinstance(test, ast.Compare) and len(test.ops) == 1 and isinstance(test.ops[0], (ast.NotIn, ast.NotEq, ast.IsNot)):
         pos = {ast.NotIn: ast.In, ast.NotEq: ast.Eq, ast.IsNot: ast.Is}[type(test.ops[0])]()
         out.add(U(ast.Compare(left=test.left, ops=[pos], comparators=test.comparators)))
